@@ -19,7 +19,7 @@ func main() {
 	}
 	r.Register("hist", dh.RunHist)
 	r.Register("histf", dh.RunHistFresh)
-	r.Register("stale", dh.RunStale)
+	r.Register("restart", dh.RunRestart)
 	if r.Replayed() {
 		return
 	}
